@@ -57,6 +57,7 @@ def gates(tier):
 def gen_case(rng, spec):
     from rv.gen import grammars as GG
 
+    underflow = False
     big = rng.random() < 0.35
     g = GG.gen_grammar(rng, max_nt=7 if big else 5, max_rules=14 if big else 11)
     an = GG.analyse(g)
@@ -66,6 +67,14 @@ def gen_case(rng, spec):
         R = rng.choice(["Float", "Boolean", "MaxTimes", "Real"])
     if R == "Q" and "nullable_cycle" in cls:
         R = "Float"
+    if R in ("Float", "Real") and rng.random() < 0.12:
+        # underflow: a few rule weights around 1e-200, so that products of two of them are exactly 0.0 in floating
+        # point while other derivations of the same span have ordinary weights
+        from fractions import Fraction as Fr
+
+        tiny = Fr(1, 10**200)
+        g = dict(g, rules=[[(w * tiny if rng.random() < 0.3 else w), h, b] for w, h, b in g["rules"]])
+        underflow = True
     if R == "Log" and rng.random() < 0.3:
         # tiny log-weights (around exp(-35) per rule): exact rationals in the oracle, log-space comparison
         from fractions import Fraction as Fr
@@ -84,6 +93,7 @@ def gen_case(rng, spec):
         "maxlen": maxlen,
         "perm": rng.randrange(1 << 30) if rng.random() < 0.5 else None,
         "rename": rng.choice([None, None, "int", "str", "tuple", "int0", "tuple0"]),
+        "underflow": underflow,
     }
 
 
@@ -183,7 +193,7 @@ def run_case(case, ctx):
                     if ok:
                         judge("Earley(cfg)(xs)", x, v, {"token_form": form})
     # 3. rescaled Earley (real weights only)
-    if R == "Float":
+    if R == "Float" and not case.get("underflow"):
         api = "earley_rescaled.Earley(cfg)(xs)"
         ok, p = ctx.call(api, case, earley_rescaled.Earley, cfg)
         if ok:
@@ -202,6 +212,8 @@ def run_case(case, ctx):
     # 5. tabulation
     api = "cfg.materialize(n)"
     for n in range(0, min(case["maxlen"], 3) + 1):
+        if case.get("underflow"):
+            break  # members whose weight underflows to 0.0 are legitimately absent from a floating-point table
         c2 = dict(case, n=n)
         ok, tab = ctx.call(api, c2, cfg.materialize, n)
         if not ok:
